@@ -163,6 +163,8 @@ def routing_case(draw, sub, focus="filters"):
     interleaved_in = paired and (interleaved_out and draw(st.booleans()) or draw(st.integers(0, 5)) == 0)
     out["interleaved_out"] = interleaved_out
     out["interleaved_in"] = interleaved_in
+    if interleaved_out and draw(st.integers(0, 2)) == 0:
+        out["redirect_two_files"] = True  # interleaved main output, redirect outputs given as two files each
     if demux:
         f["demux"] = demux
     k = draw(st.integers(0, 5))
@@ -215,7 +217,9 @@ def render(sc):
         nonlocal args
         if not f.get(flag):
             return
-        if paired and not il_out:
+        # the layout of a redirect output follows the options given for it, not the layout of the main output
+        two = paired and (not il_out or out.get("redirect_two_files"))
+        if two:
             args += [opt1, f"{stem}.1.{ext}", opt2, f"{stem}.2.{ext}"]
             dest[key] = (f"{stem}.1.{ext}", f"{stem}.2.{ext}")
         else:
